@@ -78,6 +78,7 @@ void Label::transform(double mag, bool x_refl, double rot, const Vec2 orig) {
     rotation = r1 * rotation + rot;
     magnification *= mag;
     x_reflection ^= x_refl;
+    repetition.transform(mag, x_refl, rot);
 }
 
 void Label::apply_repetition(Array<Label*>& result) {
